@@ -20,6 +20,7 @@ CONSTANTS
   GatherOf <- MCGatherOf
   CleanOf <- MCCleanOf
   FixtureSetUpFails <- MCFixtureSetUpFails
+  FixtureFailCount <- MCFixtureFailCount
   FixtureCleanKind <- MCFixtureCleanKind
   FixtureGatherRaises <- MCFixtureGatherRaises
   FixtureDetails <- MCFixtureDetails
